@@ -23,11 +23,14 @@ def get_type_of_variable_list(
     Returns:
         Type of the last element in the variable list as string.
     """
-    current_struct = struct_definitions[task.variables[var_list[0]]]
-    for i in range(1, len(var_list) - 1):
-        current_struct = struct_definitions[current_struct.attributes[var_list[i]]]
-    variable_type = current_struct.attributes[var_list[len(var_list) - 1]]
-    return variable_type
+    try:
+        current_struct = struct_definitions[task.variables[var_list[0]]]
+        for i in range(1, len(var_list) - 1):
+            current_struct = struct_definitions[current_struct.attributes[var_list[i]]]
+        return current_struct.attributes[var_list[len(var_list) - 1]]
+    except (KeyError, TypeError):
+        # undeclared variable, unknown attribute or array element: no type, the caller reports it
+        return None
 
 
 def is_con(string: str) -> bool:
